@@ -7,7 +7,7 @@ use crate::model::calendar as cal;
 use crate::model::instant::*;
 use super::diff::*;
 use astrolabe::{DateTime, DateUtilities, Time, TimeUtilities};
-use serde_json::json;
+use serde_json::{json, Value};
 
 fn unit_bin(unit: &'static str, diff: i128, u: i128, ra: i128, rb: i128, neg_path: bool) -> String {
     let c = if diff == 0 {
@@ -225,6 +225,40 @@ pub fn run(ctx: &Ctx) -> PropResult {
         judge_date_pair(rec, d1, d2);
     }));
     // call sequences: a pair, the reversed pair, pairs sharing one operand with a sibling of the other, the pair again
+    // operands whose local reading lies beyond a range end (outward offset): differences are defined on the UTC
+    // instants and must come out as for any other pair
+    wls.push(Workload::cases("operands_with_an_out_of_range_local_reading", ctx.count(8_000, 200_000), |rec, _, rng| {
+        rec.eval();
+        let Some((a, i, off, high)) = super::diff::outward_value(rng) else {
+            rec.bin("outward/could-not-build(other-property)");
+            return;
+        };
+        rec.bin("outward/local-reading-beyond-the-range-end");
+        let j = match rng.below(4) {
+            0 => i,
+            1 => (i + rng.range_i128(-5 * NS, 5 * NS)).clamp(MIN_INSTANT, MAX_INSTANT),
+            2 => (i + if high { -rng.range_i128(0, 3 * D) } else { rng.range_i128(0, 3 * D) }).clamp(MIN_INSTANT, MAX_INSTANT),
+            _ => gen_instant(rng, 2).0,
+        };
+        let Some((b, _)) = sane_value_opt(j, 0, true) else {
+            rec.bin(SKIP_START);
+            return;
+        };
+        rec.nontrivial(hash_i128s(&[i, j, off as i128, 0x0606]));
+        let d = i - j;
+        let want = format!("{} {} {} {} {} {} {} {:?}", d, d / 1_000, d / 1_000_000, d / NS, d / (60 * NS), d / (3_600 * NS), d / D, std::time::Duration::new((d.abs() / NS) as u64, (d.abs() % NS) as u32));
+        let wit = |obs: Value| json!({"a_utc": show(i), "a_offset": off, "note": "a's local reading lies beyond the range end", "b_utc": show(j), "model (ns us ms s min h d between)": want, "observed": obs});
+        for (who, x, y, sign) in [("a.since(b)", &a, &b, 1i128), ("b.since(a)", &b, &a, -1)] {
+            let r = trap(|| format!("{} {} {} {} {} {} {} {:?}", x.nanos_since(y), x.micros_since(y), x.millis_since(y), x.seconds_since(y), x.minutes_since(y), x.hours_since(y), x.days_since(y), x.duration_between(y)));
+            let dd = d * sign;
+            let w = format!("{} {} {} {} {} {} {} {:?}", dd, dd / 1_000, dd / 1_000_000, dd / NS, dd / (60 * NS), dd / (3_600 * NS), dd / D, std::time::Duration::new((d.abs() / NS) as u64, (d.abs() % NS) as u32));
+            match r {
+                Err(p) => rec.violation(format!("C06|outward-operand|{}|panic|{},{}", who, p.class, p.site()), || wit(p.to_json())),
+                Ok(g) if g != w => rec.violation(format!("C06|outward-operand|{}|wrong-value", who), || wit(json!({"got": g, "want": w}))),
+                _ => {}
+            }
+        }
+    }));
     wls.push(Workload::cases("sibling_call_sequences", ctx.count(30_000, 1_000_000), |rec, _, rng| {
         let (lo, hi) = (MIN_INSTANT + 3 * D, MAX_INSTANT - 3 * D);
         let p = gen_pair(rng);
@@ -242,6 +276,7 @@ pub fn run(ctx: &Ctx) -> PropResult {
     let mut meta = PropMeta::default();
     meta.rule = "The C03 pair generator (instants in 8 strata x deltas {0, ±1 ns, sub-second, k units ± few ns for each of the 7 units, days, 2^62 ns, uniform} x two independent offsets): each of the 7 DateTime::*_since must equal (i_a − i_b)/unit truncated toward zero in i128, be antisymmetric, and (for counts < 2^32 with a representable upper bound) satisfy b.add_u(n) <= a < b.add_u(n+1); duration_between must equal |i_a − i_b| both ways. Time pairs (6 units, stored nanoseconds) and Date pairs (days) likewise. Every pair is non-trivial (bins report the borrow / sub-unit / negative-path classes); distinct by input hash. Differences next to 'magic magnitudes' (2^15…2^64 of every unit from ns to weeks, ± jitter up to a day) and instants at such magnitudes from 0001-01-01 / 1970-01-01 are part of the pair generator. Offset::Local twins (pairs) for all seven *_since and duration_between.".into();
     meta.required_bins = vec![
+        "outward/local-reading-beyond-the-range-end",
         "sequence/sibling-calls",
         "local-twin/judged", "local-twin/synthetic-fixed-zone", "local-twin/real-zone-with-transitions",
         "pair/equal-instant", "pair/straddles-0001-01-01", "pair/sub-second", "pair/straddles-midnight-within-24h",
